@@ -76,6 +76,9 @@ func selfExe() string {
 	return p
 }
 
+// coverDir, when set, is where coverage-instrumented workers drop their counter files (GOCOVERDIR).
+var coverDir string
+
 // raceLog, when set, makes workers run with GORACE logging to that path prefix.
 var raceLog string
 
@@ -87,6 +90,9 @@ func runOne(exe string, args []string, timeout time.Duration) (out []byte, errOu
 	cmd.Env = append(os.Environ(), "GOMAXPROCS=2", "XJSVERIF_PLAIN="+selfExe())
 	if raceLog != "" {
 		cmd.Env = append(cmd.Env, "GORACE=halt_on_error=0 log_path="+raceLog, "VERIF_RACE_LOG="+raceLog)
+	}
+	if coverDir != "" {
+		cmd.Env = append(cmd.Env, "GOCOVERDIR="+coverDir)
 	}
 	if err := cmd.Start(); err != nil {
 		return nil, []byte(err.Error()), -1, false
@@ -148,6 +154,10 @@ func RunCheck(o CheckOpts) int {
 	os.MkdirAll(runDir, 0o755)
 	if p.Race {
 		raceLog = filepath.Join(runDir, "race")
+	}
+	if os.Getenv("XJSVERIF_COVER") == "1" {
+		coverDir = filepath.Join(runDir, "cov")
+		os.MkdirAll(coverDir, 0o755)
 	}
 
 	merged := NewResult()
@@ -232,6 +242,8 @@ func RunCheck(o CheckOpts) int {
 		}(sh)
 	}
 	wg.Wait()
+	codeCov := collectCoverage(coverDir)
+	coverDir = "" // replays below run without writing counter files
 
 	// planned cases
 	planned := 0
@@ -310,7 +322,7 @@ func RunCheck(o CheckOpts) int {
 	if sc := merged.Counters["oracle_selfcheck_failures"]; sc > 0 && sc*100 > int64(merged.Evaluations) {
 		machinery = append(machinery, fmt.Sprintf("%d oracle self-check failures in %d cases: the oracle, not xjs, needs attention", sc, merged.Evaluations))
 	}
-	writeEvidence(p, o, merged, planned, nviol, len(known), machinery, time.Since(start))
+	writeEvidence(p, o, merged, planned, nviol, len(known), machinery, codeCov, time.Since(start))
 
 	for _, l := range lines {
 		fmt.Println(l)
@@ -437,7 +449,65 @@ func RunReplay(path string) int {
 	return 0
 }
 
-func writeEvidence(p *Property, o CheckOpts, r *Result, planned, nviol, nknown int, machinery []string, wall time.Duration) {
+// collectCoverage turns the counter files that the coverage-instrumented workers wrote into evidence: which
+// statements of xjs the monitored executions actually reached (per package, and every function not fully reached).
+func collectCoverage(dir string) map[string]any {
+	if dir == "" {
+		return nil
+	}
+	defer os.RemoveAll(dir)
+	ents, _ := os.ReadDir(dir)
+	if len(ents) == 0 {
+		return map[string]any{"note": "no counter files were written"}
+	}
+	res := map[string]any{"counter_files": len(ents)}
+	out, err := exec.Command("go", "tool", "covdata", "percent", "-i="+dir).Output()
+	if err != nil {
+		return map[string]any{"note": "go tool covdata failed: " + err.Error()}
+	}
+	pk := map[string]string{}
+	for _, l := range strings.Split(string(out), "\n") {
+		f := strings.Fields(l)
+		if len(f) >= 3 && strings.Contains(f[0], "xjslang/xjs/") {
+			pk[strings.TrimPrefix(f[0], "github.com/xjslang/xjs/")] = f[2]
+		}
+	}
+	res["xjs_statement_coverage_percent"] = pk
+	if out, err = exec.Command("go", "tool", "covdata", "func", "-i="+dir).Output(); err == nil {
+		var partial, never []string
+		neverPkg := map[string]int{}
+		nfun := 0
+		for _, l := range strings.Split(string(out), "\n") {
+			f := strings.Fields(l)
+			if len(f) != 3 || !strings.Contains(f[0], "xjslang/xjs/") {
+				continue
+			}
+			nfun++
+			name := strings.TrimPrefix(strings.TrimSuffix(f[0], ":"), "github.com/xjslang/xjs/") + " " + f[1]
+			switch f[2] {
+			case "100.0%":
+			case "0.0%":
+				never = append(never, name)
+				neverPkg[strings.SplitN(name, "/", 2)[0]]++
+			default:
+				partial = append(partial, name+" "+f[2])
+			}
+		}
+		sort.Strings(partial)
+		sort.Strings(never)
+		res["xjs_functions_total"] = nfun
+		res["xjs_functions_fully_reached"] = nfun - len(partial) - len(never)
+		res["xjs_functions_partly_reached"] = partial
+		res["xjs_functions_never_reached_per_package"] = neverPkg
+		if len(never) > 40 {
+			never = append(never[:40], fmt.Sprintf("... and %d more", len(never)-40))
+		}
+		res["xjs_functions_never_reached"] = never
+	}
+	return res
+}
+
+func writeEvidence(p *Property, o CheckOpts, r *Result, planned, nviol, nknown int, machinery []string, codeCov map[string]any, wall time.Duration) {
 	cov := map[string]any{}
 	cov["evaluations"] = r.Evaluations
 	cov["distinct_nontrivial"] = r.DistinctCount()
@@ -491,6 +561,9 @@ func writeEvidence(p *Property, o CheckOpts, r *Result, planned, nviol, nknown i
 	if p.Level == "translation_validation" {
 		cov["programs"] = int(r.Counters["programs"])
 		cov["disagreements_checked"] = int(r.Counters["disagreements_checked"])
+	}
+	if codeCov != nil {
+		cov["code_reached_by_the_monitored_executions"] = codeCov
 	}
 	if p.Finish != nil {
 		p.Finish(cov, r)
